@@ -1,5 +1,6 @@
 import decimal
 import io
+import sys
 import uuid
 from collections.abc import Mapping
 from datetime import date, datetime, time, timedelta
@@ -174,7 +175,7 @@ def from_enum(en: Enum):
 
 MAX_SAFE_NUMBER = 9007199254740991
 MIN_SAFE_NUMBER = -9007199254740991
-MIN_NORMAL_FLOAT = decimal.Decimal(2) ** -1022   # smallest normal double, exactly
+MIN_NORMAL_FLOAT = decimal.Decimal(sys.float_info.min)   # smallest normal double 2**-1022, exactly (Decimal(float) does not round)
 
 
 def js_unsafe(num: Union[int, float, decimal.Decimal]):
